@@ -60,7 +60,18 @@ TStep ==
 
 TEnd == IsEvent("send") /\ UNCHANGED schedvars /\ Report(Flag(~Ev.clean, "schedHang"))
 
-STNext == TStart \/ TStep \/ TEnd
+\* a burst on one stream: many operations under the announced id <<0,1>>, one operation stamped <<0,2>>, then the announcement
+\* of <<0,2>> - sent without waiting. The early operation is judged against the snapshot of its own request: the session is
+\* primary, learnt and recorded id <<0,1>>.
+TPipe ==
+  /\ IsEvent("spipe")
+  /\ UNCHANGED schedvars
+  /\ LET v == OpVerdictSn([master |-> "s1", cur |-> <<0, 1>>, last |-> <<0, 1>>], "s1", [id |-> 999, key |-> 999, eid |-> <<0, 2>>, typ |-> "ADD"]) IN
+     Report(Flag(~Ev.ok, "schedSetup")
+            \cup Flag(Ev.ok /\ ((Ev.early = "RIB_PROGRAMMED") # (v.k = "rib") \/ Ev.earlyInstalled # (v.k = "rib")), "schedStreamOrder")
+            \cup Flag(Ev.ok /\ Ev.elec # <<0, 2>>, "schedCur"))
+
+STNext == TStart \/ TStep \/ TEnd \/ TPipe
 STSpec == STInit /\ [][STNext]_stvars
 
 Matched == TLCGet("stats").diameter - 1
